@@ -21,6 +21,7 @@ func init() {
 			"C35.R1": "K8: per partition count — cardinality, distinctness, brace-freedom, distinct slots",
 			"C35.R2": "K8: per (P, n) — balance within one under contiguous assignment",
 			"C35.R3": "K8: CRC table and constants equal the independent reference",
+			"C35.R4": "ownership/taint: the validated table is never written through a FindTags result (it stays the constant that was validated)",
 		},
 		Exhaustive: true,
 		Technique:  "constant-table validation: exhaustive evaluation of package-level literals against an independent reference (CRC16-XMODEM, contiguous slot assignment)",
@@ -64,6 +65,7 @@ func refNode(slot, n int) int {
 
 func runC35(c *Ctx) {
 	w := c.W
+	runC35Immutable(c)
 	pkg := w.ByPath[longPkg("internal/redispartition")]
 	if !c.Anchor("C35.R1", "package internal/redispartition", pkg != nil) {
 		return
